@@ -86,9 +86,9 @@ func normalisePair(conds []string) []string {
 		s = strings.ReplaceAll(s, "&CUR", "CUR")
 		s = strings.ReplaceAll(s, "&NEXT", "NEXT")
 		for _, r := range [][2]string{
-			{`\(\*whispertool\.ArchiveInfo\)\.SecondsPerPoint\((CUR|NEXT|p0)\)`, "$1.secondsPerPoint"},
-			{`\(\*whispertool\.ArchiveInfo\)\.NumberOfPoints\((CUR|NEXT|p0)\)`, "$1.numberOfPoints"},
-			{`\(\*whispertool\.ArchiveInfo\)\.MaxRetention\((CUR|NEXT|p0)\)`, "RET($1)"},
+			{`whispertool\.ArchiveInfo\.SecondsPerPoint\((CUR|NEXT|p0)\)`, "$1.secondsPerPoint"},
+			{`whispertool\.ArchiveInfo\.NumberOfPoints\((CUR|NEXT|p0)\)`, "$1.numberOfPoints"},
+			{`whispertool\.ArchiveInfo\.MaxRetention\((CUR|NEXT|p0)\)`, "RET($1)"},
 			{`\((CUR|NEXT|p0)\.secondsPerPoint \*:int32 (CUR|NEXT|p0)\.numberOfPoints\)`, "RET($1)"},
 		} {
 			s = regexp.MustCompile(r[0]).ReplaceAllString(s, r[1])
@@ -273,7 +273,7 @@ func rulesC07(w *World, r *Report) {
 	if val != nil {
 		checkFailConds(w, r, "C07.R3", val, []wantCond{
 			{"non-empty", "0 == len(p0)", "", "an empty list is rejected"},
-			{"element", "(whispertool.ArchiveInfo).validate(CUR) != nil", "", "every archive is validated on its own"},
+			{"element", "nil != whispertool.ArchiveInfo.validate(CUR)", "", "every archive is validated on its own"},
 			{"step-strict", "NEXT.secondsPerPoint <= CUR.secondsPerPoint", "notlast", "strictly finer step"},
 			{"step-divides", "(NEXT.secondsPerPoint %:int32 CUR.secondsPerPoint) != 0", "notlast", "the finer step divides the coarser"},
 			{"retention-strict", "RET(NEXT) <= RET(CUR)", "notlast", "strictly shorter retention"},
@@ -478,12 +478,9 @@ func rulesC02(w *World, r *Report) {
 			}
 			var frac, xff ssa.Value
 			for _, side := range [][2]ssa.Value{{bo.X, bo.Y}, {bo.Y, bo.X}} {
-				if c, ok := stripChangeType(side[1]).(*ssa.Call); ok && c.Common().StaticCallee() == fn(w.Lib, "Whisper.XFilesFactor") {
+				// the file's factor, read through the getter or the field, directly or hoisted
+				if newExprCtx(w).expr(side[1]) == "p0.header.xFilesFactor" {
 					frac, xff = side[0], side[1]
-				} else if cv, ok := side[1].(*ssa.Convert); ok {
-					if c, ok := cv.X.(*ssa.Call); ok && c.Common().StaticCallee() == fn(w.Lib, "Whisper.XFilesFactor") {
-						frac, xff = side[0], side[1]
-					}
 				}
 			}
 			if frac == nil {
@@ -544,7 +541,7 @@ func rulesC02(w *World, r *Report) {
 		r.Rule("C02.R6", "every touched coarser slot is recomputed: the slot write in propagate is guarded by nothing but the non-empty test on the known values and the xFilesFactor gate", 1)
 		var extra []string
 		for _, g := range blockGuards(w, putCall.Block()) {
-			if strings.Contains(g, "XFilesFactor(") || regexp.MustCompile(`^!?\(len\(whispertool\.filterValidValues\(.*\)\) (==|!=|>|<) [01]\)$`).MatchString(g) || regexp.MustCompile(`^!\(len\(p2\) == 0\)$`).MatchString(g) {
+			if (strings.Contains(g, "XFilesFactor(") || strings.Contains(g, ".xFilesFactor")) || regexp.MustCompile(`^!?\(len\(whispertool\.filterValidValues\(.*\)\) (==|!=|>|<) [01]\)$`).MatchString(g) || regexp.MustCompile(`^!\(len\(p2\) == 0\)$`).MatchString(g) {
 				continue
 			}
 			extra = append(extra, g)
@@ -569,7 +566,7 @@ func rulesC02(w *World, r *Report) {
 			// what is appended is intervalForWrite(t) of the next archive
 			ex := newExprCtx(w)
 			va := variadicArgs(appendCall.Common().Args[1])
-			okT := len(va) == 1 && strings.HasPrefix(ex.expr(va[0]), "(*whispertool.ArchiveInfo).intervalForWrite(")
+			okT := len(va) == 1 && strings.HasPrefix(ex.expr(va[0]), "whispertool.ArchiveInfo.intervalForWrite(")
 			r.Check(okT, "C02.R4", "propagate:queued-interval", w.instrPos(appendCall), "queues the next archive's write interval of the stored slot", "the queued value is not the coarser archive's intervalForWrite of the stored slot")
 		}
 	}
@@ -758,7 +755,7 @@ func rulesC03(w *World, r *Report) {
 	var lo, hi *failCond
 	for i := range fcs {
 		c := fcs[i].Core()
-		if regexp.MustCompile(`^p2 <= \(whispertool\.Timestamp\)\.Add\((i\d+|p4), -\(\*whispertool\.Whisper\)\.MaxRetention\(p0\)\)$`).MatchString(c) && len(fcs[i].Guards) == 0 {
+		if regexp.MustCompile(`^p2 <= whispertool\.Timestamp\.Add\((i\d+|p4), -p0\.header\.maxRetention\)$`).MatchString(c) && len(fcs[i].Guards) == 0 {
 			lo = &fcs[i]
 		}
 		if regexp.MustCompile(`^(i\d+|p4) < p2$`).MatchString(c) {
@@ -843,7 +840,7 @@ func rulesC03(w *World, r *Report) {
 				}
 				ex3 := newExprCtx(w)
 				xs, ys := ex3.expr(bo.X), ex3.expr(bo.Y)
-				if regexp.MustCompile(`^p0\[i\d+\]\.Time$`).MatchString(xs) && ys == "(whispertool.Timestamp).Add(p1, -p2)" && bo.Op == token.LEQ && edgeDominates(b, b.Succs[0], hit.Block()) {
+				if regexp.MustCompile(`^p0\[i\d+\]\.Time$`).MatchString(xs) && ys == "whispertool.Timestamp.Add(p1, -p2)" && bo.Op == token.LEQ && edgeDominates(b, b.Succs[0], hit.Block()) {
 					okTest = true
 				}
 			}
